@@ -704,6 +704,52 @@ pub fn directed_c08() -> Vec<(Vec<VOp>, HistCfg)> {
     ]
 }
 
+/// Scans longer than one refill of the file-IO source's 512 KiB buffer (and, for compressed
+/// formats, more compressed bytes than one refill holds): one big vector per selected (format,
+/// element type), including element sizes that are not a power of two, probed with the whole
+/// read-API grid. Runs in parallel; returns (histories, operations, statistics).
+fn big_scan(ctx: &Ctx, report: &Report, tag: u64, sig_prefix: &str, values: bool, access: bool) -> (u64, u64, Counter) {
+    let want = ["Bytes<[u8;3]>", "ZeroCopy<[u8;3]>", "Bytes<u64>", "LZ4<u64>", "Pco<u64>", "Zstd<u16>", "LZ4<u8>"];
+    let rs: Vec<(&'static str, Runner)> = runners().into_iter().filter(|(n, _)| want.contains(n)).collect();
+    let n = if crate::common::reduced() { 3 } else { rs.len() };
+    let outs = run_shards(n, |i| {
+        let (name, runner) = rs[i];
+        // > 512 KiB of element bytes for every selected type (u8: 600 000 elements)
+        let big = match name {
+            "LZ4<u8>" => 600_000,
+            "Zstd<u16>" => 300_000,
+            "Bytes<u64>" => 70_000,
+            _ => 180_000,
+        };
+        let cfg = HistCfg {
+            fixed_ops: Some(vec![VOp::Push(big), VOp::Write, VOp::Push(5)]),
+            probe: Some(ProbeCfg { every: 1, pairs: 3, access, values }),
+            ..HistCfg::default()
+        };
+        let mut rng = Rng::derive(ctx.seed, &[tag, 424242, i as u64]);
+        let t0 = std::time::Instant::now();
+        let o = runner(&mut rng, &cfg);
+        if std::env::var("VERIF_DEBUG").is_ok() {
+            eprintln!("big_scan {name}: {:.1}s", t0.elapsed().as_secs_f64());
+        }
+        (o, name)
+    });
+    let mut stats = Counter::default();
+    let (mut h, mut ops) = (0u64, 0u64);
+    for (o, name) in outs {
+        h += 1;
+        ops += o.ops.len() as u64;
+        stats.merge(&o.stats);
+        stats.bump(&format!("big_scan:{name}"));
+        if let Some((at, m)) = o.failed_at {
+            let family = if o.format.contains("Bytes") || o.format.contains("ZeroCopy") { "raw" } else { "compressed" };
+            report.note_failure();
+            report.violation(ctx, Violation { sig: format!("{sig_prefix}|{family}|big|{}", m.sig), what: format!("{} (big vector): {}", o.label, m.what), detail: json!({"vector": o.label, "origin": "big_scan", "failed_at_op": at, "shrunk_ops": vops_json(&o.ops[..=at.min(o.ops.len().saturating_sub(1))]), "mismatch": m.what}) });
+        }
+    }
+    (h, ops, stats)
+}
+
 fn probe_campaign(ctx: &Ctx, report: &Report, tag: u64, sig: &'static str, secs: f64, values: bool, access: bool) -> VecCampaign {
     let make = move |rng: &mut Rng, _name: &'static str| {
         let rollback = rng.chance(1, 3);
@@ -741,8 +787,18 @@ fn probe_campaign(ctx: &Ctx, report: &Report, tag: u64, sig: &'static str, secs:
         } else {
             vecdb::verif::set_mmap_crossover_bytes(*crossover);
         }
-        let c = vec_campaign(ctx, report, secs * share, tag * 10 + k as u64, sig, &make, &directed);
+        // the big-vector scans run next to the campaign (they are few and long)
+        let (c, big) = std::thread::scope(|sc| {
+            let big = (k != 1).then(|| sc.spawn(|| big_scan(ctx, report, tag * 10 + k as u64, sig, values, access)));
+            let c = vec_campaign(ctx, report, secs * share, tag * 10 + k as u64, sig, &make, &directed);
+            (c, big.map(|h| h.join().expect("big_scan panicked (harness bug)")))
+        });
         let mut c = c;
+        if let Some((h, ops, st)) = big {
+            c.histories += h;
+            c.ops_total += ops;
+            c.stats.merge(&st);
+        }
         let n = c.histories;
         c.stats.add(&format!("backend:crossover={}:histories", if *crossover == usize::MAX { "default".to_string() } else { crossover.to_string() }), n);
         total = Some(match total {
